@@ -166,8 +166,9 @@ proof fn lemma_full_nat(bm: u128)
 
 //@ hint ReassembleQueue::new after `!0u128 << total`
         proof {
-            lemma_bitmap_new(total as u128, this as u128);
-            assert forall|i: nat| i < 128 implies ((bitmap & bit(i) != 0) <==> (i >= total || i == this)) by {
+            // stated over the PARAMETER seq, not over the local it is copied into
+            lemma_bitmap_new(total as u128, seq as u128);
+            assert forall|i: nat| i < 128 implies ((bitmap & bit(i) != 0) <==> (i >= total || i == seq as nat)) by {
                 let iu = i as u128;
                 assert(iu < 128);
                 assert(bit(i) == 1u128 << iu);
@@ -199,13 +200,13 @@ proof fn lemma_full_nat(bm: u128)
 
 //@ hint ReassembleQueue::add_fragment before `!self.bitmap == 0`
             proof {
-                assert(bit(this as nat) == 1u128 << (this as u128));
-                lemma_set_bit_nat(old(self).bitmap, this as nat);
+                assert(bit(seq as nat) == 1u128 << (seq as u128));
+                lemma_set_bit_nat(old(self).bitmap, seq as nat);
                 lemma_full_nat(self.bitmap);
-                assert(self.bitmap == old(self).bitmap | bit(this as nat));
+                assert(self.bitmap == old(self).bitmap | bit(seq as nat));
                 assert(forall|i: nat| i < 128 ==> (self.has(i) <==> (old(self).has(i) || i == this)));
-                assert(self.has(this as nat));
-                assert(self.fragments@ == old(self).fragments@.update(this as int, buf));
+                assert(self.has(seq as nat));
+                assert(self.fragments@ == old(self).fragments@.update(seq as int, buf));
                 assert(self.wf());
                 if self.complete() {
                     assert forall|i: nat| i < 128 implies self.bitmap & bit(i) != 0 by {
